@@ -423,6 +423,9 @@ func Run(c *hx.Ctx) {
 	tables(c)
 	fatLog(c)
 	subWin(c, subrng)
+	// partition values handed directly to WriteContents / ReadContents; own random stream (derived from the seed) so
+	// that the families above keep their inputs
+	partSpell(c, hx.NewRng(c.Seed*1000003+0x9a57))
 }
 
 func safely(f func() error) (err error) {
